@@ -39,7 +39,7 @@ REQUIRED_CELLS = {
               'single:ph=1', 'single:ph=0', 'single:form=dict', 'single:form=str', 'single:form=list',
               'single:basis=mol', 'single:basis=wt_copy', 'single:basis=wt_coeff', 'single:basis=wt_setter',
               'single:basis=mol_from_wt', 'single:derive=copy_other', 'single:derive=copy_then_setter',
-              'single:derive=setter_roundtrip', 'sets:derive=copy_other', 'sets:derive=members_copy_other', 'sets:slice-not-prefix', 'sets:rebase=member_setter(rejected)', 'sets:rebase=source_setter', 'entry:failed-call', 'entry:force-ok', 'sets:kind=par', 'sets:kind=ser', 'sets:kind=sys', 'sets:xpkg',
+              'single:derive=setter_roundtrip', 'sets:derive=copy_other', 'sets:derive=members_copy_other', 'sets:slice-not-prefix', 'single:twice,xpkg,wt', 'sets:twice', 'sets:editX', 'sets:ints', 'balance:op=correct_atomic_constants', 'sets:rebase=member_setter(rejected)', 'sets:rebase=source_setter', 'entry:failed-call', 'entry:force-ok', 'sets:kind=par', 'sets:kind=ser', 'sets:kind=sys', 'sets:xpkg',
               'sets:ph=1', 'sets:basis=wt', 'outcome:InfeasibleRegion', 'outcome:returned',
               'parser:ph=0', 'parser:ph=1'],
     'thorough': [],
@@ -176,10 +176,14 @@ def prop_single(ch, ctx):
             cstep = ('react.counterpart', cp, rx.ref_of(spec, pnames, cb, MW, phases), cb)
             steps = [cstep, steps[0]] if ch.bool('derive.original_last') else [steps[0], cstep]
     out = None
+    repeat = 2 if ch.bool('twice') else 1          # the same target reacted twice
+    touch = ch.bool('touch_mass')                  # the stream's mass view is read before the call
+    if repeat == 2: ctx.cell('single:twice')
+    if repeat == 2 and xpkg and basis == 'wt' and tgt == 'S': ctx.cell('single:twice,xpkg,wt')
     for site, obj, rf, bs in steps:
         reg = f'kind=R,basis={bs},ph={int(tagged)},tgt={tgt},xpkg={int(xpkg)}' + suffix
         o = rx.apply_and_judge(ctx, site, reg, obj, rf, bs, pid, feed, tgt, phases, qid,
-                               stream_phase=sphase or 'l', rtol=TOL)
+                               stream_phase=sphase or 'l', rtol=TOL, repeat=repeat, touch_mass=touch)
         if obj is rxn:
             out = o
     if derive == 'setter_roundtrip':
@@ -236,14 +240,19 @@ def prop_sets(ch, ctx):
         full, pm_all = rx.draw_phase_map(ch, 'pm', pnames)
         phases = tuple(full)
     specs, rxns, refs = [], [], []
+    ints = ch.bool('ints')
+    if ints: ctx.cell('sets:ints')
     region_b = f'set,basis={set_basis},ph={int(tagged)}'
     tmo.settings.set_thermo(rx.thermo(pid))
     for i in range(n):
         nu = rx.draw_stoich(ch, f'r{i}', pnames, kmax=5)
         reactant = ch.choice(f'r{i}.reactant', list(nu))
-        X = rx.draw_X(ch, f'r{i}')
+        if ints:
+            X = ch.choice(f'r{i}.X.int', [1, 0, 1])       # every member created with a whole-number Python int
+        else:
+            X = rx.draw_X(ch, f'r{i}')
         spec = rx.RSpec(nu, reactant, X, {k: pm_all[k] for k in nu} if tagged else None)
-        spec.x_as_int = X == int(X) and ch.bool(f'r{i}.X.as_int')
+        spec.x_as_int = ints or (X == int(X) and ch.bool(f'r{i}.X.as_int'))
         form = ch.choice(f'r{i}.form', ['dict', 'str', 'list'] if tagged else ['dict', 'str'])
         if set_basis == 'mol' or set_copy_wt:
             mode = ch.choice(f'r{i}.mode', ['mol', 'mol', 'mol_from_wt'])
@@ -413,6 +422,44 @@ def prop_sets(ch, ctx):
             mem.append(part[0] if gk == 'rxn' else rx.RefRxn(gk, part))
         return rx.RefRxn('sys', mem)
 
+    # Multi-step: the conversions are edited after construction (through an item, the set's X setter, the system's X
+    # setter or a member) and the object is applied afterwards: it must convert exactly the NEW X of each reactant.
+    editX = ch.choice('editX', ['none', 'none', 'item', 'set', 'system', 'member'])
+    if editX != 'none':
+        newx = [rx.draw_X(ch, f'newX{i}', specials=(0.25, None, None, 0.5, 0.0, 1.0)) for i in range(n)]
+        as_array = ch.bool('editX.array')
+        rge = f'editX={editX},kind={kk},basis={set_basis},ph={int(tagged)},ints={int(ints)}'
+        def assign(o, v):
+            o.X = v
+        if kind in ('par', 'ser'):
+            if editX in ('item', 'member'):
+                for i in range(n):
+                    ctx.call('editX.item', assign, obj[i], newx[i], region=rge)
+            else:
+                ctx.call('editX.set', assign, obj, np.array(newx) if as_array else list(newx), region=rge)
+        else:
+            nested, pos = [], 0
+            for gk, size in groups:
+                part = newx[pos:pos + size]; pos += size
+                nested.append(part[0] if gk == 'rxn' else (np.array(part) if as_array else list(part)))
+            if editX in ('system', 'set'):
+                ctx.call('editX.system', assign, obj, nested, region=rge)
+            else:
+                for m, v, (gk, size) in zip(members, nested, groups):
+                    if gk == 'rxn' or editX == 'member':
+                        ctx.call('editX.member', assign, m, v, region=rge)
+                    else:
+                        for j in range(size):
+                            ctx.call('editX.item', assign, m[j], v[j], region=rge)
+        for sp, v in zip(specs, newx):
+            sp.X = float(v)
+        got_x = [float(v) for it in (obj if kind != 'sys' else [r_ for m in members for r_ in ([m] if isinstance(m, tmo.Reaction) else list(m))]) for v in [it.X]]
+        if got_x != [float(v) for v in newx]:
+            ctx.fail(f'editX|{rge}|X', f'conversions read back {got_x} after assigning {newx}')
+        ref = ref_tree(set_basis)
+        ctx.cell('sets:editX')
+        suffix += f',editX={editX}'
+        region += f',editX={editX}'
     steps = [('react', obj, ref, set_basis)]
     if derive != 'none':
         ctx.cell(f'sets:derive={derive}')
@@ -435,10 +482,13 @@ def prop_sets(ch, ctx):
         cstep = ('react.counterpart', cp, ref_tree(cb), cb)
         steps = [cstep, steps[0]] if ch.bool('derive.original_last') else [steps[0], cstep]
     out = None
+    repeat = 2 if ch.bool('twice') else 1
+    touch = ch.bool('touch_mass')
+    if repeat == 2: ctx.cell('sets:twice')
     for site, o_, rf, bs in steps:
         reg = f'kind={kk},basis={bs},ph={int(tagged)},tgt={tgt},xpkg={int(xpkg)}' + suffix
         o = rx.apply_and_judge(ctx, site, reg, o_, rf, bs, pid, feed, tgt, phases, qid,
-                               stream_phase=sphase or 'l', rtol=TOL)
+                               stream_phase=sphase or 'l', rtol=TOL, repeat=repeat, touch_mass=touch)
         if o_ is obj:
             out = o
     if obj._basis != set_basis:
@@ -545,12 +595,19 @@ def prop_balance(ch, ctx):
         full, pm = rx.draw_phase_map(ch, 'pm', list(nu))
         phases = tuple(sorted(set(pm.values())))
     basis = ch.choice('basis', ['mol', 'wt'])
-    op = ch.choice('op', ['errors', 'errors', 'correct_atomic', 'correct_atomic_ctor', 'correct_mass', 'correct_mass_ctor'])
+    op = ch.choice('op', ['errors', 'errors', 'correct_atomic', 'correct_atomic_ctor', 'correct_mass', 'correct_mass_ctor',
+                          'correct_atomic_constants', 'correct_atomic_constants'])
     spec = rx.RSpec(nu, reactant, 1.0, pm)
     others = [n for n in nu if n != reactant]
     # perturbation factors (1 = untouched) for the definition that is handed to the code
     if op == 'errors':
         fac = {n: Fraction(ch.choice(f'f.{n}', [1, 1, 1, 2, 3])) / ch.choice(f'fd.{n}', [1, 1, 2]) for n in nu}
+    elif op == 'correct_atomic_constants':
+        # coefficients of the drawn `constants` (never the reactant) are held; every other one, the reactant's
+        # included, is perturbed and must be solved for - and the result is still expressed per unit of reactant
+        constants = ch.subset('constants', others, min_size=1)
+        fac = {n: (Fraction(1) if n in constants else Fraction(ch.choice(f'f.{n}', [2, 3, 5, 1])) / ch.choice(f'fd.{n}', [1, 2, 3]))
+               for n in nu}
     elif op.startswith('correct_atomic'):
         fac = {n: Fraction(ch.choice(f'f.{n}', [1, 2, 3, 5])) / ch.choice(f'fd.{n}', [1, 2, 3]) for n in others}
         fac[reactant] = Fraction(1)
@@ -608,7 +665,11 @@ def prop_balance(ch, ctx):
     if op.startswith('correct_atomic'):
         ctx.cell('balance:unique' if unique else 'balance:underspecified')
         try:
-            if op.endswith('ctor'):
+            if op == 'correct_atomic_constants':
+                rxn = ctx.call('build', tmo.Reaction, d, region=region, **kw)
+                carg = constants[0] if (len(constants) == 1 and ch.bool('constants.str')) else list(constants)
+                ctx.call('correct_atomic_balance', rxn.correct_atomic_balance, carg, allowed=(RuntimeError,), region=region)
+            elif op.endswith('ctor'):
                 rxn = ctx.call('correct_atomic_balance', tmo.Reaction, d, correct_atomic_balance=True,
                                allowed=(RuntimeError,), region=region, **kw)
             else:
@@ -648,6 +709,16 @@ def prop_balance(ch, ctx):
         ctx.fail(f'{site}|{region}|mismatch',
                  f'corrected stoichiometry {got.tolist()} is not the balanced one {true_nu.tolist()}')
     ctx.metric_max(f'{site}:err/tol', err / tol)
+    # ... and then a call: exactly X of the reactant is consumed, mass and atoms are conserved
+    Xc = ch.choice('X.after', [0.5, 1.0, 0.25])
+    rxn.X = Xc
+    spec.X = Xc
+    refc = rx.ref_of(spec, pnames, basis, MW, phases)
+    feedc = rx.draw_feed(ch, 'feed', len(pnames), len(phases) if tagged else 1)
+    if not tagged: feedc = feedc[0]
+    feedc = rx.make_ample(feedc, rx.ref_of(spec, pnames, 'mol', MW, phases))
+    rx.apply_and_judge(ctx, 'react.corrected', region + ',tgt=nd', rxn, refc, basis, pid, feedc, 'nd', phases, pid,
+                       rtol=max(1e-12, 10 * tol / sc), coef_tol=tol if tol > 1e-12 * sc else 0.0)
     ctx.nontriv(['balance', op, basis, list(phases), spec.summary(), sorted((k, str(v)) for k, v in fac.items())])
 
 
